@@ -3,7 +3,7 @@
    c18_threads <nthreads> <iters> <seed> <mode> [kinds-mask [mir2c-mode]]
        mode: 0 = sequential reference run AFTER the threaded run (first-time initialisations race
              inside the threads), 1 = reference run first
-       kinds-mask: which of the 7 C program kinds may be drawn (default 0x7f)
+       kinds-mask: which of the 8 C program kinds may be drawn (default 0xff)
        mir2c-mode: 0 = no mir2c phase (default); 1 = mir2c inside the full workload; 2 = only
              MIR_init / MIR_scan_string / 12 x MIR_module2c / MIR_finish.  mir2c keeps the function
              being translated in a file-scope static, so concurrent translations can make one thread
@@ -99,7 +99,7 @@ typedef struct {
   int id, tid, it, thr, nviol;
   struct MIR_code_alloc ca;
   caev_t *ev;
-  size_t nev, cap;
+  size_t nev, cap, dumped;
 } carec_t;
 static carec_t carecs[2][MAXT][MAXI];
 
@@ -109,6 +109,18 @@ static void ca_log (carec_t *cr, char kind, char sub, uint32_t a, uint32_t b, in
     cr->ev = realloc (cr->ev, cr->cap * sizeof (caev_t));
   }
   cr->ev[cr->nev++] = (caev_t){kind, sub, bad, a, b};
+}
+
+/* print the events of a context (from `dumped` on); called at once when a request violates the invariant,
+   because the process may not survive what the library does next, and again at the end of the run */
+static void ca_dump (carec_t *cr) {
+  flockfile (stdout);
+  printf ("CTX %d %d %d %s viol=%d events=%zu\n", cr->id, cr->tid, cr->it, cr->thr ? "THR" : "SEQ", cr->nviol, cr->nev);
+  for (size_t e = cr->dumped; e < cr->nev; e++)
+    printf ("CA %d %c %c %u %u %d\n", cr->id, cr->ev[e].kind, cr->ev[e].sub, cr->ev[e].a, cr->ev[e].b, cr->ev[e].bad);
+  cr->dumped = cr->nev;
+  fflush (stdout);
+  funlockfile (stdout);
 }
 
 static int own_prefix (carec_t *cr, uint32_t lo, uint32_t n) { /* # leading pages owned by cr */
@@ -134,6 +146,7 @@ static int rec_unmap (void *addr, size_t len, void *ud) {
   int own = own_prefix (cr, lo, n), bad = own != (int) n;
   if (bad) cr->nviol++;
   ca_log (cr, 'u', '-', lo, n, bad);
+  if (bad) ca_dump (cr);
   for (int k = 0; k < own; k++) __atomic_store_n (&page_owner[lo + k], -cr->id, __ATOMIC_RELAXED);
   return 0; /* the pages stay mapped and are never handed out again */
 }
@@ -146,6 +159,7 @@ static int rec_protect (void *addr, size_t len, MIR_mem_protect_t prot, void *ud
   int own = own_prefix (cr, lo, n), bad = own != (int) n;
   if (bad) cr->nviol++;
   ca_log (cr, 'w', prot == PROT_WRITE_EXEC ? 'W' : 'R', lo, n, bad);
+  if (bad) ca_dump (cr);
   if (own == 0) return 0;
   return mprotect (arena + (size_t) lo * psz, (size_t) own * psz,
                    prot == PROT_WRITE_EXEC ? (PROT_READ | PROT_WRITE | PROT_EXEC) : (PROT_READ | PROT_EXEC));
@@ -153,16 +167,30 @@ static int rec_protect (void *addr, size_t len, MIR_mem_protect_t prot, void *ud
 
 /* patches whose last byte is the last byte of a page (and a few that are not) */
 static void patch_phase (MIR_context_t ctx, carec_t *cr, uint64_t *rs) {
-  static __thread uint8_t pad[4096];
+  static __thread uint8_t pad[3 * 4096];
   uint64_t val = 0x1122334455667788ull ^ *rs;
   memset (pad, 0x90, sizeof (pad));
+  /* code whose size is an exact multiple of the page size, and a multiple -/+ 16: the holder mapped for it
+     must be at least as large as the range the library then protects / fills / unmaps */
+  if (psz <= 4096) {
+    size_t k = 1 + (size_t) (splitmix (rs) % 2);
+    static const int delta[3] = {0, -16, 16};
+    size_t first = (size_t) (splitmix (rs) % 3);
+    for (int j = 0; j < 2; j++) {
+      size_t sz = k * psz + delta[(first + j) % 3];
+      ca_log (cr, 'P', 'b', (uint32_t) sz, 0, 0); /* announce: _MIR_publish_code of sz bytes */
+      if (_MIR_publish_code (ctx, pad, sz) == NULL) return;
+    }
+    ca_log (cr, 'P', 'b', (uint32_t) (k * psz), 0, 0);
+    if (_MIR_publish_code (ctx, pad, k * psz) == NULL) return;
+  }
   for (int round = 0; round < 2; round++) {
     size_t S = 16 * (1 + (size_t) (splitmix (rs) % 4));
     uint8_t *p = _MIR_get_new_code_addr (ctx, S), *slot;
     if (p == NULL) return;
     size_t rest = psz - (size_t) p % psz;
     if (rest < S) S = rest;
-    if (rest > S && rest - S <= sizeof (pad)) _MIR_publish_code (ctx, pad, rest - S);
+    if (rest > S && rest - S <= 4096) _MIR_publish_code (ctx, pad, rest - S);
     slot = _MIR_publish_code (ctx, pad, S);
     if (slot == NULL || ((size_t) slot + S) % psz != 0) continue; /* not on a boundary: skip the round */
 #define ANNOUNCE(sub, ad, ln) ca_log (cr, 'p', sub, (uint32_t) ((uint8_t *) (ad) - arena), (uint32_t) (ln), 0)
@@ -282,13 +310,27 @@ static void c_program (const spec_t *sp, char *buf, size_t len) {
               a, b);
     break;
   case 5: /* erroneous programs: error paths of the parser / checker */
-    if (a & 1)
+    if (a % 3 == 1)
       snprintf (buf, len, "long f (long n) { return n + ; }\nint g (int x { return %ld; }\n", b);
+    else if (a % 3 == 2) /* error recovery inside struct declarations, attributes, unnamed bit-fields */
+      snprintf (buf, len,
+                "struct S { unsigned a : 4; unsigned : %ld; int : ; unsigned b : 4 __attribute__ ((packed)); unsigned : 3 };\n"
+                "struct T { int x __attribute__ ((aligned (8))); unsigned : 0; long } ;\n"
+                "long f (long n) { struct S s; s.b = n; return s.b + sizeof (struct T); }\n",
+                1 + b % 12);
     else
       snprintf (buf, len,
                 "struct u; long f (long n) { struct u x; int y = \"s\" * %ld; return x + undeclared (n); "
                 "}\n",
                 b);
+    break;
+  case 7: /* unnamed bit-fields (and `: 0`), different widths per thread */
+    snprintf (buf, len,
+              "struct S { unsigned a : 4; unsigned : %ld; unsigned b : 4; int : 0; unsigned c : 3; unsigned : %ld; unsigned d : 2; };\n"
+              "union U { struct S s; unsigned long u[2]; };\n"
+              "long f (long n) { union U x; x.u[0] = x.u[1] = 0; x.s.a = (unsigned) n & 15; x.s.b = 15; x.s.c = 5; x.s.d = 3;\n"
+              "  return (long) (x.u[0] ^ (x.u[1] << 7)) + %ld; }\n",
+              1 + a % 12, 1 + b % 7, a + b);
     break;
   default:
     snprintf (buf, len,
@@ -356,7 +398,7 @@ static void run_one (const spec_t *sp, int tid, int it, res_t *res, ev_t *ev, in
   }
   carec_t *cr = &carecs[shift ? 1 : 0][tid][it];
   cr->id = 1 + (shift ? MAXT * MAXI : 0) + tid * MAXI + it;
-  cr->tid = tid, cr->it = it, cr->thr = shift, cr->nviol = 0, cr->nev = 0;
+  cr->tid = tid, cr->it = it, cr->thr = shift, cr->nviol = 0, cr->nev = 0, cr->dumped = 0;
   cr->ca = (struct MIR_code_alloc){rec_map, rec_unmap, rec_protect, cr};
   PHASE (PH_INIT);
   ctx = sp->hooks ? MIR_init2 (NULL, &cr->ca) : MIR_init ();
@@ -510,14 +552,14 @@ int main (int argc, char **argv) {
   iters = atoi (argv[2]);
   seed = strtoull (argv[3], NULL, 10);
   mode = atoi (argv[4]);
-  unsigned kinds = argc > 5 ? (unsigned) strtoul (argv[5], NULL, 0) : 0x7f;
+  unsigned kinds = argc > 5 ? (unsigned) strtoul (argv[5], NULL, 0) : 0xff;
   m2c_mode = argc > 6 ? atoi (argv[6]) : 0;
-  if (nthreads < 1 || nthreads > MAXT || iters < 1 || iters > MAXI || (kinds & 0x7f) == 0) return 2;
+  if (nthreads < 1 || nthreads > MAXT || iters < 1 || iters > MAXI || (kinds & 0xff) == 0) return 2;
   uint64_t s = seed * 1000003ull + 17;
   for (int t = 0; t < nthreads; t++)
     for (int it = 0; it < iters; it++) {
       spec_t *sp = &specs[t][it];
-      do sp->kind = (int) (splitmix (&s) % 7); while (!((kinds >> sp->kind) & 1));
+      do sp->kind = (int) (splitmix (&s) % 8); while (!((kinds >> sp->kind) & 1));
       sp->iface = (int) (splitmix (&s) % 4);
       sp->opt = (int) (splitmix (&s) % 4);
       sp->c2m_finish_early = (int) (splitmix (&s) & 1);
@@ -537,6 +579,8 @@ int main (int argc, char **argv) {
     return 2;
   }
   arena_next = 1; /* page 0 is never handed out */
+  printf ("PAGESIZE %zu\n", psz);
+  fflush (stdout);
   if (mode == 1) sequential ();
   pthread_barrier_init (&start_barrier, NULL, (unsigned) nthreads);
   for (int t = 0; t < nthreads; t++) pthread_create (&th[t], NULL, thread_main, (void *) (intptr_t) t);
@@ -564,11 +608,8 @@ int main (int argc, char **argv) {
       for (int it = 0; it < iters; it++) {
         carec_t *cr = &carecs[k][t][it];
         if (cr->id == 0 || cr->nev == 0) continue;
-        printf ("CTX %d %d %d %s viol=%d events=%zu\n", cr->id, t, it, k ? "THR" : "SEQ", cr->nviol, cr->nev);
         pviol += cr->nviol;
-        for (size_t e = 0; e < cr->nev; e++)
-          printf ("CA %d %c %c %u %u %d\n", cr->id, cr->ev[e].kind, cr->ev[e].sub, cr->ev[e].a, cr->ev[e].b,
-                  cr->ev[e].bad);
+        ca_dump (cr);
       }
   printf ("DONE mismatches=%d pageviol=%d\n", mism, pviol);
   return 0;
